@@ -70,7 +70,8 @@ def gen_random(g, n, lo, hi):
                 toks.append(g.r.choice(["r", "r", "s", "s", "b", "b", "t"] if g.r.random() < 0.8 else CMDS))
             else:
                 toks.append("a0" if g.r.random() < p0 else "a1")
-        out.append((toks, "rand"))
+        post = g.r.choice([[], [], [], ["r"], ["j"], ["r", "j"], ["b", "s", "j"], ["t", "a1", "r", "a1"]])
+        out.append((toks, "rand", post))
     return out
 
 
@@ -303,11 +304,12 @@ def parse_free(out):
 def finalize(ctx, scheds):
     """driver passes: decide the tail (j / jt / t j / t jt), the asynchronous commands and the watchdog of every
     schedule.  Returns list of dict(toks, kind, dline, hline, dwords, wd)."""
-    first = vlib.run_driver(["life cur " + " ".join(t + ["j"]) for t, _ in scheds])
+    scheds = [(s_ + ([],))[:3] for s_ in scheds]          # (tokens, kind, tokens after the join)
+    first = vlib.run_driver(["life cur " + " ".join(t + ["j"]) for t, _, _ in scheds])
     keep_hang = ctx.n(6, 40)
     pre = []
     nh = 0
-    for idx, ((toks, kind), d) in enumerate(zip(scheds, first)):
+    for idx, ((toks, kind, post), d) in enumerate(zip(scheds, first)):
         dw = d.split()
         if two_pending(dw):
             continue
@@ -317,11 +319,11 @@ def finalize(ctx, scheds):
                 pre.append((toks + ["j"], kind + ":hang"))
             else:
                 # teardown, then the join — with run_condition() true for ever in every other case
-                pre.append((toks + ["t", "jt" if idx % 2 else "j"], kind + ":td"))
+                pre.append((toks + ["t", "jt" if idx % 2 else "j"] + post, kind + ":td"))
         elif "t" in toks and idx % 2:
-            pre.append((toks + ["jt"], kind + ":jt"))
+            pre.append((toks + ["jt"] + post, kind + ":jt"))
         else:
-            pre.append((toks + ["j"], kind))
+            pre.append((toks + ["j"] + post, kind))
     second = vlib.run_driver(["life cur " + " ".join(t) for t, _ in pre])
     cases = []
     for (toks, kind), d in zip(pre, second):
@@ -351,7 +353,7 @@ def run(ctx):
                 scheds.append((ln.split(), "corpus"))
     kmax = ctx.n(2, 3)
     scheds += gen_exhaustive(kmax)
-    scheds += gen_random(g, ctx.n(400, 6000), 20, 120)
+    scheds += gen_random(g, ctx.n(1200, 6000), 20, 120)
     if ctx.replay:
         rp = json.load(open(ctx.replay))["replay"]
         toks = rp["schedule"].split()
@@ -450,7 +452,7 @@ def run(ctx):
     missing_edges = [e for e in all_edges if e not in edges]
 
     # free-running real-thread runs: the clauses evaluated on wall-clock interleavings
-    flines = gen_free(ctx.gen("free"), ctx.n(60, 1500))
+    flines = gen_free(ctx.gen("free"), ctx.n(160, 1500))
     if ctx.replay or confirmed or prop_bad:
         flines = []      # already failing: the free runs would only add time-outs
     fouts, flogs = run_parallel(binary, flines, chunk=20, stop_after=lambda outs: sum(1 for o in outs if o.endswith("hang")) >= 3)
@@ -481,7 +483,7 @@ def run(ctx):
                 "wait, mutex held) of %d base advance sequences (%s), each followed by join (or teardown+join when the model says the thread "
                 "cannot end; %d expected-hang schedules kept), plus %d seeded random schedules of 20..120 tokens; non-trivial = at least one "
                 "command besides the leading run; plus %d free-running real-thread runs with random command timing"
-                % (kmax, len(BASES), ", ".join(BASES), sum(1 for c in cases if c["kind"].endswith(":hang")), ctx.n(400, 6000), len(flines)),
+                % (kmax, len(BASES), ", ".join(BASES), sum(1 for c in cases if c["kind"].endswith(":hang")), ctx.n(1200, 6000), len(flines)),
         "samples": [cases[0]["hline"], cases[len(cases) // 2]["hline"], cases[-1]["hline"]] + flines[:1],
         "exhaustive": True, "exhaustive_bound": "commands <= %d over all positions of the base sequences" % kmax,
         "traces_validated_against_impl": len(ok_cases),
